@@ -305,7 +305,11 @@ macro_rules! send_data {
 
             if $segment_iter_item.seq_nr() > $self.last_sent_seq_nr {
                 $self.last_sent_seq_nr = $segment_iter_item.seq_nr();
-                $self.seq_nr = $segment_iter_item.seq_nr() + 1;
+                // After an RTO rewound last_sent_seq_nr, later segments are still outstanding:
+                // seq_nr (the number of the next new packet, e.g. our FIN) never moves backwards.
+                if $segment_iter_item.seq_nr() + 1 > $self.seq_nr {
+                    $self.seq_nr = $segment_iter_item.seq_nr() + 1;
+                }
             }
 
             // rfc6298 5.1
